@@ -299,15 +299,20 @@ func init() {
 		}
 		c19StrList(w, "condsSetCellTime", c19Conds(sc))
 		isNumStmt := ""
-		for _, st := range c19Stmts(sc) { // the statement deciding number vs. text
+		var firstInstant []string
+		for _, st := range c19Stmts(sc) { // the statements deciding number vs. text
 			if strings.HasPrefix(st, "isNum =") {
 				isNumStmt = st
+			}
+			if strings.HasPrefix(st, "firstInstant") {
+				firstInstant = append(firstInstant, st)
 			}
 		}
 		if isNumStmt == "" {
 			fail("setCellTime: statement `isNum = ...`")
 		}
 		fmt.Fprintf(w, "def stmtIsNum : String := %s\n", leanStr(isNumStmt))
+		c19StrList(w, "stmtsFirstInstant", firstInstant)
 		ed := funcDecl("", "ExcelDateToTime")
 		if ed == nil {
 			fail("func ExcelDateToTime")
